@@ -4,7 +4,7 @@ From Coq Require Import List NArith ZArith Bool Lia.
 Import ListNotations.
 From JB Require Import Constants Bytes Utf8 Num NumProofs Value Codec Order OrderProofs CodecProofs RoundtripProofs DispatchProofs
   TreeOps Path PathSem Dispatch Walk WalkProofs CompareWalk CompareWalkProofs SelWalk.
-From JB Require TreeWf ModeProofs EvalProofs.
+From JB Require TreeWf ModeProofs EvalProofs I32.
 Open Scope N_scope.
 Set Default Timeout 120.
 
@@ -174,7 +174,7 @@ Proof. destruct l; [reflexivity|]. rewrite lenN_cons. apply N.eqb_neq. lia. Qed.
 Lemma select_array_values_den bs off len x : den bs (PosC off len) x ->
   res_rel (Forall2 (den bs)) (select_array_values_w bs off len) (Ok (match x with VArr l => l | _ => [x] end)).
 Proof.
-  intros D. pose proof D as (Hw & Hn & Hc & Hp & Hlen). unfold select_array_values_w.
+  intros D. pose proof D as (Hw & Hn & Hc & Hp & Hlen). unfold select_array_values_w, SAV_OFF.
   destruct x as [| | | |l|o]; try discriminate Hc.
   - destruct (good_arr l (conj Hw Hn)) as (Hg & Hl & Hs).
     rewrite (hdr_at_arr bs l off Hp Hl). cbn [bind]. destruct (arr_hdr_facts l Hl) as (_ & -> & ->).
@@ -190,7 +190,7 @@ Qed.
 Lemma select_object_values_den bs off len x : den bs (PosC off len) x ->
   res_rel (Forall2 (den bs)) (select_object_values_w bs off) (Ok (match x with VObj o => map snd o | _ => [] end)).
 Proof.
-  intros D. pose proof D as (Hw & Hn & Hc & Hp & Hlen). unfold select_object_values_w.
+  intros D. pose proof D as (Hw & Hn & Hc & Hp & Hlen). unfold select_object_values_w, SOV_OFF.
   destruct x as [| | | |l|o]; try discriminate Hc.
   - destruct (good_arr l (conj Hw Hn)) as (Hg & Hl & Hs).
     rewrite (hdr_at_arr bs l off Hp Hl). cbn [bind]. destruct (arr_hdr_facts l Hl) as (_ & -> & _).
@@ -290,7 +290,7 @@ Lemma select_by_name_den bs off len x name : den bs (PosC off len) x ->
   res_rel (Forall2 (den bs)) (select_by_name_w bs off name)
           (Ok (match x with VObj o => match assoc_lookup name o with Some y => [y] | None => [] end | _ => [] end)).
 Proof.
-  intros D. pose proof D as (Hw & Hn & Hc & Hp & Hlen). unfold select_by_name_w.
+  intros D. pose proof D as (Hw & Hn & Hc & Hp & Hlen). unfold select_by_name_w, SBN_OFF.
   destruct x as [| | | |l|o]; try discriminate Hc.
   - destruct (good_arr l (conj Hw Hn)) as (Hg & Hl & Hs).
     rewrite (hdr_at_arr bs l off Hp Hl). cbn [bind]. destruct (arr_hdr_facts l Hl) as (_ & -> & _).
@@ -352,12 +352,12 @@ Qed.
 Lemma index_positions_lt len a k : (0 < len)%Z -> In k (index_positions len a) -> (Z.of_nat k < len)%Z.
 Proof.
   intros Hlen. destruct a as [i|s e]; cbn [index_positions].
-  - destruct ((0 <=? resolve_index i len) && (resolve_index i len <? len))%Z eqn:E; [|intros []].
-    apply andb_true_iff in E. destruct E as [E1 E2]. apply Z.leb_le in E1. apply Z.ltb_lt in E2.
-    intros [<-|[]]. lia.
-  - destruct ((resolve_index e len <? resolve_index s len) || (len <=? resolve_index s len) || (resolve_index e len <? 0))%Z eqn:E; [intros []|].
-    apply orb_false_iff in E. destruct E as [E E3]. apply orb_false_iff in E. destruct E as [E1 E2].
-    apply Z.ltb_ge in E1. apply Z.leb_gt in E2. apply Z.ltb_ge in E3.
+  - (* the generated guard of convert_index *)
+    destruct (CI_INRANGE (resolve_index i len) len) eqn:E; [|intros []].
+    apply I32.CI_INRANGE_in_bounds in E. intros [<-|[]]. lia.
+  - (* the generated guard and clamping of convert_slice *)
+    destruct (CS_EMPTY (resolve_start s len) (resolve_end e len) len) eqn:E; [intros []|].
+    pose proof (I32.CS_in_bounds _ _ _ Hlen E) as B.
     intros H. apply range_from_bounds in H. lia.
 Qed.
 Lemma index_empty len a : index_nonempty len a = false -> index_positions len a = [].
@@ -377,7 +377,7 @@ Lemma select_by_indices_den bs off len x ixs : den bs (PosC off len) x ->
   res_rel (Forall2 (den bs)) (select_by_indices_w bs off ixs)
           (Ok (match x with VArr l => select_indices l ixs | _ => [] end)).
 Proof.
-  intros D. pose proof D as (Hw & Hn & Hc & Hp & Hlen). unfold select_by_indices_w.
+  intros D. pose proof D as (Hw & Hn & Hc & Hp & Hlen). unfold select_by_indices_w, SBI_OFF.
   destruct x as [| | | |l|o]; try discriminate Hc.
   - destruct (good_arr l (conj Hw Hn)) as (Hg & Hl & Hs).
     rewrite (hdr_at_arr bs l off Hp Hl). cbn [bind]. destruct (arr_hdr_facts l Hl) as (_ & -> & ->).
@@ -449,7 +449,7 @@ Lemma array_loop_w_den bs poses items : Forall2 (den bs) poses items ->
 Proof.
   induction 1 as [|pos x poses items D HF IH]; intros pre dw dp.
   - cbn [array_loop_w length repeat map flat_map app]. rewrite Nat.mul_0_r. cbn [repeat app]. rewrite app_nil_r. reflexivity.
-  - destruct D as (Hw & Hn & Hm). pose proof (wfb_size x Hw) as Hs. cbn [array_loop_w].
+  - destruct D as (Hw & Hn & Hm). pose proof (wfb_size x Hw) as Hs. cbn [array_loop_w]. change (N.to_nat BSA_JSTEP) with 4%nat.
     assert (E : match pos with
                 | PosC off len => do p <- slice_p bs off len; Ok ((pre ++ dw ++ repeat 0 (4 * length (pos :: poses)) ++ dp) ++ p, N.lor CONTAINER_TAG (u32 len))
                 | PosS ty off len => do p <- (if 0 <? len then slice_p bs off len else Ok []); Ok ((pre ++ dw ++ repeat 0 (4 * length (pos :: poses)) ++ dp) ++ p, N.lor ty (u32 len))
@@ -485,6 +485,8 @@ Theorem build_scalar_array_w_den bs poses items : Forall2 (den bs) poses items -
   forall data, build_scalar_array_w bs poses data = Ok (build_array_items data items).
 Proof.
   intros HF data. unfold build_scalar_array_w, build_array_items.
+  match goal with |- context [repeat 0 (?n - ?j)] =>
+    replace (n - j)%nat with (4 * length poses)%nat by (unfold BSA_RESERVE, lenN; lia) end.
   pose proof (array_loop_w_den bs poses items HF (data ++ be32 (N.lor ARRAY_CONTAINER_TAG (u32 (lenN poses)))) [] []) as L.
   cbn [app] in L. rewrite !app_nil_r in L. rewrite L. cbn [bind].
   change (enc (VArr items)) with (payload (VArr items)). rewrite payload_arr. unfold arr_hdr, header_word.
